@@ -271,10 +271,11 @@ impl Boudot2000RangeProof {
             D_1 = w + (x * &c);
             D_2 = nu + (r * &c);
 
+            // same upper bound as verify_large_interval_specific checks
             if c * b <= D_1
                 && D_1
-                    <= (Integer::from(2).pow(T) * Integer::from(2).pow(t + l)) * b
-                        - Integer::from(1)
+                    <= Integer::from(2).pow(T)
+                        * (Integer::from(2).pow(t + l) * b - Integer::from(1))
             {
                 boolean = false;
             }
